@@ -20,8 +20,8 @@ from ..tlaval import FrozenDict
 
 LEVEL = 'model_checking'
 
-VALS = {2: [1.5, -0.25, 153.0], 7: [1e-3, 2.5, -1e300], 12: [-128, 5, 127], 13: [-300, 7], 14: [-70000, 2147483647], 15: [255, 0], 16: [65535, 256],
-        17: [4000000000, 1], 18: [0, 127, 128, 16383, 16384], 19: [b'', b'ID', b'LONGER-IDENT.1'], 20: [b'', b'some text', b'x' * 200],
+VALS = {2: [1.5, -0.25, 153.0, 0.0], 7: [1e-3, 2.5, -1e300, 0.0], 12: [-128, 5, 127, 0], 13: [-300, 7, 0, -32768], 14: [-70000, 2147483647, 0, -2147483648], 15: [255, 0], 16: [65535, 256, 0],
+        17: [4000000000, 1, 0, 4294967295], 18: [0, 127, 128, 16383, 16384], 19: [b'', b'ID', b'LONGER-IDENT.1'], 20: [b'', b'some text', b'x' * 200],
         21: [(1987, 0, 4, 19, 21, 20, 15, 620), (2021, 2, 12, 31, 23, 59, 59, 999)], 23: [(1, 0, b'CH1'), (300, 2, b'')],
         24: [(b'CHANNEL', (1, 0, b'X')), (b'', (0, 0, b'Y'))], 26: [0, 1], 27: [b'm/s', b'', b'0.1 in']}
 CODES = sorted(VALS)
